@@ -28,6 +28,7 @@ RULE = ('retry words: exhaustive up to length 3 per configuration (quick: sample
         'or the throttler was activated; distinct = hash of (configuration, fault word, observed attempt gaps)')
 ASSUMPTIONS = ['a fake aiohttp session stands for the network: connection errors/timeouts are raised by it', 'login handlers always return fresh credentials eventually',
                'Retry-After values are whole seconds (HTTP)']
+SANITIZE_LOOP_ERRORS = True      # an exception inside an asyncio callback during the simulation is a violation here (runner.run_case_sanitized)
 GATES = {'retry_cases': 150, 'attempts': 1200, 'gaps_checked': 600, 'retry_after_overrides': 100, 'retry_after_on_5xx': 20, 'zero_backoff_429': 20, 'escalations': 150, 'immediate_escalations': 50,
          'reauth_cases': 60, 'logins': 60, 'blocked_requests_resumed': 80, 'reauth_operator_runs': 30, 'contain_cases': 30, 'throttle_rounds': 50, 'neighbour_calls': 100, 'recoveries': 30}
 
